@@ -467,7 +467,52 @@ def tAllocDeleteR (consumer : Nat) (db : DB R) : DB R × P R :=
 
 def pAllocDelete (consumer : Nat) : P R := .txn .getAllocs (tAllocDeleteR consumer)
 
-/-- the transaction program of a request; requests outside the concurrency scope run as one step -/
+/-! ### provider update / delete: look the provider up (`get_by_uuid`), then one write transaction
+(`save()` / `destroy()`); the write works on the row id read before and re-reads everything else -/
+
+def errRpUpdate (e : Exc) : Resp :=
+  match e with
+  | .dbDuplicate => r409 .duplicateName
+  | .objectAction => r400
+  | .notFound => r404
+  | _ => r500
+
+def tRpUpdateW (mv id name : Nat) (parent : Option Nat) (db : DB R) : DB R × P R :=
+  match updateProvider db id name parent (mv ≥ 37) with
+  | .ok db' => (db', .done r200)
+  | .error e => (db, .done (errRpUpdate e))
+
+def tRpUpdateR (mv uuid name : Nat) (parent : Option (Option Nat)) (db : DB R) : DB R × P R :=
+  match db.rpByUuid uuid with
+  | none => (db, .done r404)
+  | some me =>
+    if mv < 14 && parent.isSome then (db, .done r400) else
+    (db, .txn .main (tRpUpdateW mv me.id name
+      (parent.getD (me.parent.bind (fun p => (db.rpById p).map (·.uuid))))))
+
+def pRpUpdate (mv uuid name : Nat) (parent : Option (Option Nat)) : P R :=
+  .txn .getRp (tRpUpdateR mv uuid name parent)
+
+def errRpDelete (e : Exc) : Resp :=
+  match e with
+  | .rpInUse => r409 .providerInUse
+  | .cannotDeleteParent => r409 .cannotDeleteParent
+  | .notFound => r404
+  | _ => r500
+
+def tRpDeleteW (id : Nat) (db : DB R) : DB R × P R :=
+  match deleteProvider db id with
+  | .ok db' => (db', .done r204)
+  | .error e => (db, .done (errRpDelete e))
+
+def tRpDeleteR (uuid : Nat) (db : DB R) : DB R × P R :=
+  match db.rpByUuid uuid with
+  | none => (db, .done r404)
+  | some me => (db, .txn .main (tRpDeleteW me.id))
+
+def pRpDelete (uuid : Nat) : P R := .txn .getRp (tRpDeleteR uuid)
+
+/-- the transaction program of a request; requests outside the concurrency scope (trait and class requests) run as one step -/
 def stepTxn (cfg : Config) (op : Op R) (db : DB R) : DB R × P R :=
   let (db', r) := step cfg db op
   (db', .done r)
@@ -485,6 +530,9 @@ def prog (cfg : Config) : Op R → P R
   | .allocPost mv cs => pAllocPost cfg mv cs
   | .reshape mv invs cs => pReshape cfg mv invs cs
   | .allocDelete c => pAllocDelete c
+  | .rpUpdate mv u n p => pRpUpdate mv u n p
+  | .rpDelete u => pRpDelete u
+  | .rpCreate mv u n p => .txn .main (stepTxn cfg (.rpCreate mv u n p))
   | op => .txn .other (stepTxn cfg op)
 
 end Placement
